@@ -202,6 +202,7 @@ class ConfigParser(object):
     self._delegate = parser_delegate
     self._within_block = False
     self._statements_queue = collections.deque()
+    self._advance_pending = False
     self._advance_one_token()
 
   def __iter__(self):
@@ -227,6 +228,12 @@ class ConfigParser(object):
     if self._statements_queue:
       return self._statements_queue.popleft()
 
+    if self._advance_pending:
+      # Move past the token that ended the previous statement only now, so that a
+      # tokenizer error on the following line is reported for the statement on
+      # that line, after the previous statement has been handed out.
+      self._advance_pending = False
+      self._advance_one_token()
     self._skip_whitespace_and_comments()
     if self._current_token.type == tokenize.ENDMARKER:
       return None
@@ -262,7 +269,7 @@ class ConfigParser(object):
       self._raise_syntax_error('Expected newline.')
 
     if self._current_token.type != tokenize.ENDMARKER:
-      self._advance_one_token()
+      self._advance_pending = True
 
     return statement
 
